@@ -6,7 +6,8 @@ META = dict(
     text="A real ControllerPid is created by Act.resolve from the Doer registry inside a resolved House/Framer/Frame for every configuration of wrap in {0, 180}, "
          "integrator limits {[-5,5], [0,0], [1,2]}, output limits {[-20,20], [0,0], [5,10], [-inf,inf]}, gain vectors over {0, 1, -3} plus inf and nan gains, and both "
          "rate modes. From the primed controller every sequence of up to 3 updates (2 for the rate-sensor mode in quick) with input and set point in "
-         "{0, 1, -1, 0.005, 200, -200, inf, -inf, nan}, lapse in {0, 0.125, 1} (inf too in thorough) and sensed rate in {-1, 0.05, inf, nan} is executed, sequences being merged when "
+         "{0, 1, -1, 0.005, 200, -200, inf, -inf, nan} (plus, when wrapping, five pairs exactly half a turn or half a turn plus whole turns apart), lapse in {0, 0.125, 1} "
+         "(inf too in thorough) and sensed rate in {-1, 0.05, inf, nan} is executed, sequences being merged when "
          "they reach the same (prior set point, prior error, error sum). After every evaluated update: ovmin <= output <= ovmax and esmin <= error sum <= esmax "
          "(a NaN fails), the stored error is the shortest representative of input - set point modulo 2*wrap, the prior set point follows the threshold rule, "
          "and after a set point change above the threshold the new error sum equals the one obtained from the same update with the integrator forced to zero.",
@@ -135,7 +136,11 @@ def canon(s, evaluated):
     return (fr(s[0]), fr(s[1]), fr(s[3]), evaluated, fr(s[8]) if not finite(s[8]) else "t")
 
 
-def events(calc, tier):
+# (input, set point) pairs exactly half a turn apart, also plus whole turns, for wrap 180: the shortest difference is +-wrap, never 0
+HALF_TURN = ((270.0, 90.0), (630.0, 90.0), (0.0, -180.0), (-90.0, 90.0), (-450.0, 90.0))
+
+
+def events(calc, tier, wrap=0.0):
     if calc:        # the sensed rate is not read in this mode
         lapses = (0.125, 1.0) if tier == "quick" else (0.125, 1.0, INF)
         rates = (0.0,)
@@ -148,6 +153,9 @@ def events(calc, tier):
             for rsp in VALUES:
                 for inp in VALUES:
                     evs.append((inp, rate, rsp, lapse))
+            if wrap:
+                for inp, rsp in HALF_TURN:
+                    evs.append((inp * abs(wrap) / 180.0, rate, rsp * abs(wrap) / 180.0, lapse))
     return evs
 
 
@@ -179,7 +187,7 @@ def _work(job):
         p.evaluations += 1
         p.violation("construction raises %s: %s" % (type(ex).__name__, ex), show_cfg(cfg), "building the controller raised %r" % (ex,), dict(config=show_cfg(cfg)))
         return p
-    evs = events(calc, tier)
+    evs = events(calc, tier, wrap)
     p.nontrivial(("cfg", fr(cfg)))
 
     def bad(group, hist, what, **kw):
@@ -243,8 +251,8 @@ def _work(job):
                         bad("error|not the shortest wrapped difference", h2,
                             "error %r for input %r, set point %r (prior %r), wrap %r" % (e2, inp, rsp, prsp, wrap), got=dict(error=e2))
                         stop = True
-                    elif True in verdicts and wrap and abs(inp - cands[verdicts.index(True)]) > abs(wrap):
-                        p.outcome("error wrapped")
+                    elif True in verdicts and wrap and abs(inp - cands[verdicts.index(True)]) >= abs(wrap):
+                        p.outcome("error wrapped" if abs(e2) < abs(wrap) else "error at exactly half a turn (+-wrap)")
                     # ---- a change above the threshold resets the integrator: the result must not depend on the old error sum
                     if changed and es0 != 0.0 and not stop:
                         forced = list(pre)
@@ -315,9 +323,10 @@ def configs(tier):
     # rate from the rate sensor (calcRate False): er = ger * rate
     gers = (-3.0,) if not full else (1.0, -3.0)
     ovs = (OVLIMS[0], OVLIMS[2])
+    eslims = ESLIMS if full else (ESLIMS[0], ESLIMS[2])
     for g in gain_vectors(False):
         for ov in ovs:
-            for es in ESLIMS:
+            for es in eslims:
                 for wrap in WRAPS:
                     for ger in gers:
                         out.append(((wrap, False, ger, es, g, ov), 2 if not full else 3))
@@ -369,7 +378,8 @@ def run():
         "a NaN output or error sum is a violation (NaN is inside no interval); limits are ordered pairs of finite or infinite floats",
         "a set point whose distance to the prior set point is not greater than drsp (including NaN distance) is not a change: the error may then be measured "
         "against the prior set point (what the code does to suppress noise) or the new one",
-        "shortest wrapped difference is judged only when input - set point is finite; |error| <= wrap and error - difference is a whole number of 2*wrap turns (1e-9)",
+        "shortest wrapped difference is judged only when input - set point is finite; |error| <= wrap and error - difference is a whole number of 2*wrap turns (1e-9), "
+        "computed with exact Fractions and not with ioflo's wrap2; at exactly half a turn both +wrap and -wrap pass, 0 does not",
         "integrator reset is judged differentially: the update is repeated from the same state with errorSum forced to 0.0 and must give the same error sum",
         "sequences are merged when prior set point, prior error and error sum (and 'store stamp is infinite') coincide: output, error rate and elapsed are not fed back; "
         "every recorded state is re-reached by plain replay of its witness history, the longest two on a freshly built controller",
@@ -377,8 +387,8 @@ def run():
     ]
     return ck.finish(
         rule="configurations = wrap {0,180} x error-sum limits %r x output limits x gain vectors (gff,gpe,gde,gie) x rate mode; calcRate True: %d gain vectors x 4 output limits, "
-             "sequences of <= 3 updates, lapse %s; calcRate False: 7 gain vectors x 2 output limits x ger %s, sequences of <= %d updates, lapse {0.125, 1} x sensed rate %s. "
-             "update = input x set point over %r x lapse (x rate), plus a zero-lapse update. evaluations = real controller updates judged; states = distinct fed-back states summed over configurations."
+             "sequences of <= 3 updates, lapse %s; calcRate False: 7 gain vectors x 2 output limits x error-sum limits (quick: [-5,5] and [1,2] only) x ger %s, sequences of <= %d updates, lapse {0.125, 1} x sensed rate %s. "
+             "update = input x set point over %r (plus the half-turn pairs (270,90) (630,90) (0,-180) (-90,90) (-450,90) when wrap = 180) x lapse (x rate), plus a zero-lapse update. evaluations = real controller updates judged; states = distinct fed-back states summed over configurations."
              % (ESLIMS, len(gain_vectors(core.TIER != "quick")), "{0.125, 1}" if core.TIER == "quick" else "{0.125, 1, inf}",
                 "{-3}" if core.TIER == "quick" else "{1,-3}", 2 if core.TIER == "quick" else 3,
                 "{-1, 0.05, inf, nan}" if core.TIER == "quick" else "{0, -1, 0.05, inf, nan}", VALUES),
